@@ -512,7 +512,7 @@ theorem runCmd_tr (cfg : Cfg) (s : S α) (c : Cmd) (src pt : Int) : Tr s (runCmd
   split
   · exact Tr.foldl _ (fun s t => heal_tr s src t) _ _
   split
-  · exact hpPrim_tr _ _ _
+  · exact Tr.foldl _ (fun s t => hpPrim_tr s t src) _ _
   split
   · exact (enqueue_qt s src c.b (c.c != 0) (.ability c.a.toNat pt) trivial).tr
   split
